@@ -135,6 +135,7 @@ func (x *Exec) doRecv(st *State, u *ssa.UnOp, chv Val, chSSA ssa.Value, commaOk 
 func (x *Exec) recvFacts(st *State, chSSA ssa.Value, ch, v *Term, et types.Type, ok *Term) {
 	st.add(rangeFacts(v, et)...)
 	x.allocFactsLoose(st, v, et)
+	x.typeInvFacts(st, v, et)
 	x.assumeChanInv(st, chanRole(chSSA), v, et, ok)
 	arr := st.heapArr(ghRecvd, heapSorts[ghRecvd])
 	st.heap[ghRecvd] = Store(arr, ch, Add(Select(arr, ch), Ite(ok, One, Zero)))
